@@ -128,6 +128,16 @@ func (c *c19Ctx) genScenario(seed uint64, progs []*c19Prog) *Scenario {
 		s.DstKind = "absent"
 	}
 	s.DstPrefillSeed = r.U64()
+	if r.Chance(1, 3) {
+		s.Env = drawProcEnv(r, false)
+	}
+	if r.Chance(1, 10) {
+		s.Stdout = pick(r, []string{"closed", "devfull"})
+	}
+	if r.Chance(1, 6) {
+		s.Argv0 = pick(r, []string{"nask", "gosk-2.0", "as"})
+	}
+	s.SrcMtime = int64(r.Intn(2000000000)) + 1
 	if r.Chance(1, 5) || ((s.SrcKind == "mode000" || s.DstKind == "ro_file" || s.DstKind == "ro_dir" || s.DstKind == "dir_no_search") && r.Chance(3, 4)) {
 		s.Uid = nobody
 	}
